@@ -219,3 +219,15 @@ package redisemu
 //@ safetyprop none
 //@ modifies *
 //@ assertbefore "dsc := dss.dbs[n].newDataStoreCommand()" [C19] index.strict: parseErr == nil && int64(n) == n64
+
+// C19: every database is saved to the file that carries its own index.
+// gNameIndex: the index the last file name was built from.
+//@ ghost gNameIndex int
+//@ func dataStoreSet.dataStoreFileName
+//@ prop C19
+//@ safetyprop none
+//@ requires dss != nil
+//@ modifies ghost.gNameIndex
+//@ ghostbefore "return" : gNameIndex = index
+//@ ensures [C19] index.recorded: gNameIndex == index
+//@ ensures [C19] memory.only: dss.basePath == "" ==> result == ""
